@@ -122,7 +122,7 @@ def _ival(n, env, lets, depth=0):
             raise _NoEval("division by zero")
         return -(-a // b)
     leaf = env.get("__leaf__")
-    if leaf is not None and k in ("field", "mcall", "call", "index") and not (k == "mcall" and n["m"] in ("min", "max", "saturating_sub", "wrapping_sub", "checked_sub", "checked_add", "checked_mul", "ok_or_else", "ok_or", "unwrap", "expect", "into", "try_into", "unwrap_or_default")):
+    if leaf is not None and k in ("field", "mcall", "call", "index") and not (k == "call" and re.search(r"cmp::(min|max)$", n.get("fn") or "")) and not (k == "mcall" and n["m"] in ("min", "max", "saturating_sub", "wrapping_sub", "checked_sub", "checked_add", "checked_mul", "ok_or_else", "ok_or", "unwrap", "expect", "into", "try_into", "unwrap_or_default")):
         v = leaf(hirq.render(n))
         if v is not None:
             return v
@@ -188,6 +188,9 @@ def _ival(n, env, lets, depth=0):
     if k == "bin" and n["op"] in ("&", "|", "^", "<<", ">>"):
         a, b = _ival(n["l"], env, lets, depth + 1), _ival(n["r"], env, lets, depth + 1)
         return {"&": a & b, "|": a | b, "^": a ^ b, "<<": a << b, ">>": a >> b}[n["op"]]
+    if k == "call" and re.search(r"cmp::(min|max)$", n.get("fn") or "") and len(n.get("args") or []) == 2:
+        a, b = _ival(n["args"][0], env, lets, depth + 1), _ival(n["args"][1], env, lets, depth + 1)
+        return min(a, b) if n["fn"].endswith("min") else max(a, b)
     if k == "mcall" and n["m"] in ("min", "max") and len(n["args"]) == 1:
         a, b = _ival(n["recv"], env, lets, depth + 1), _ival(n["args"][0], env, lets, depth + 1)
         return min(a, b) if n["m"] == "min" else max(a, b)
@@ -199,9 +202,69 @@ def _ival(n, env, lets, depth=0):
     raise _NoEval(hirq.render(n)[:60])
 
 
+def _pat_matches(p, v):
+    k = p.get("k")
+    if k == "wild" or k == "bind":
+        return True
+    if k == "lit":
+        return p["v"].get("int") == v if "int" in p["v"] else None
+    if k == "or":
+        rs = [_pat_matches(q, v) for q in p.get("subs") or []]
+        return None if any(r is None for r in rs) else any(rs)
+    if k == "range":
+        lo, hi = hirq.lit_int(p.get("lo")) if p.get("lo") else None, hirq.lit_int(p.get("hi")) if p.get("hi") else None
+        if lo is None and hi is None:
+            return None
+        return (lo is None or v >= lo) and (hi is None or (v <= hi if p.get("incl", True) else v < hi))
+    return None
+
+
+def _match_arm(n, env, lets, depth):
+    """the arm of a `match <integer expr> { literals / or-patterns / _ }` selected under env (guards evaluated)"""
+    v = _ival(n["e"], env, lets, depth + 1)
+    for a in n["arms"]:
+        m_ = _pat_matches(a["pat"], v)
+        if m_ is None:
+            raise _NoEval("pattern " + hirq.render_pat(a["pat"])[:30])
+        if m_ and (a.get("guard") is None or _bval(a["guard"], env, lets, depth + 1)):
+            return a["body"]
+    raise _NoEval("no arm matches")
+
+
+def _call_inline(n, env):
+    """(body, env) of a call to a function known in env["__fns__"] (path -> Fn) with its parameters bound to the evaluated arguments"""
+    g = (env.get("__fns__") or {}).get(n.get("fn"))
+    if g is None or not g.hir:
+        return None
+    pn = [b[0] if b else None for b in (hirq.pat_binds(p_) for p_ in g.hir["params"])]
+    if len(pn) != len(n.get("args") or []) or None in pn:
+        return None
+    return g.hir["body"], pn
+
+
 def _bval(n, env, lets, depth=0):
     n = hirq.strip(n)
     k = n.get("k")
+    if k == "lit" and "bool" in n["v"]:
+        return bool(n["v"]["bool"])
+    if k == "match":
+        return _bval(_match_arm(n, env, lets, depth), env, lets, depth + 1)
+    if k == "block" and n.get("e") is not None and not n.get("stmts"):
+        return _bval(n["e"], env, lets, depth + 1)
+    if k == "if" and n.get("else") is not None:
+        return _bval(n["then"] if _bval(n["c"], env, lets, depth + 1) else n["else"], env, lets, depth + 1)
+    if k == "call":
+        inl = _call_inline(n, env)
+        if inl is not None:
+            body, pn = inl
+            env2 = {k_: v_ for k_, v_ in env.items() if k_.startswith("__")}
+            for nm_, a_ in zip(pn, n["args"]):
+                env2[nm_] = _ival(a_, env, lets, depth + 1)
+            return _bval(body, env2, {}, depth + 1)
+    if k in ("field", "mcall", "path") and env.get("__bleaf__") is not None:
+        v = env["__bleaf__"](hirq.render(n))
+        if v is not None:
+            return bool(v)
     if k == "bin" and n["op"] in ("&&", "||"):
         a, b = _bval(n["l"], env, lets, depth + 1), _bval(n["r"], env, lets, depth + 1)
         return (a and b) if n["op"] == "&&" else (a or b)
@@ -697,6 +760,7 @@ def run(ctx):
                     "part of the signed structure is no longer checked: a forged or altered signature block can verify")
 
     _attr_layout_rule(ctx, mpq)
+    _attr_maintenance_rule(ctx, mpq)
 
 
 def _attr_layout_rule(ctx, mpq):
@@ -710,6 +774,8 @@ def _attr_layout_rule(ctx, mpq):
         return
     ctx.saw_fn(f)
     body = f.hir["body"]
+    # conditions and terms may be routed through locals (`let has_crc32 = flags & 1 != 0;`)
+    lets_all = {l["pat"]["name"]: l["init"] for l in hirq.find(body, "let") if l["pat"].get("k") == "bind" and l.get("init") is not None and not re.match(r"expected_size", l["pat"]["name"])}
 
     def accumulate(name, env):
         """value of the accumulator `name` after its `let mut` and the `if .. { name += .. }` statements that follow it"""
@@ -717,7 +783,7 @@ def _attr_layout_rule(ctx, mpq):
             stmts = blk.get("stmts") or []
             for i, st in enumerate(stmts):
                 if st.get("k") == "let" and st["pat"].get("k") == "bind" and st["pat"]["name"] == name and st.get("init") is not None:
-                    val = _ival(st["init"], env, {})
+                    val = _ival(st["init"], env, lets_all)
                     n_upd = 0
                     for st2 in stmts[i + 1:]:
                         st2 = hirq.strip(st2)
@@ -727,9 +793,9 @@ def _attr_layout_rule(ctx, mpq):
                         if not ups:
                             continue
                         n_upd += 1
-                        if _bval(st2["c"], env, {}):
+                        if _bval(st2["c"], env, lets_all):
                             for u in ups:
-                                d = _ival(u["r"], env, {})
+                                d = _ival(u["r"], env, lets_all)
                                 val = val + d if u["op"].startswith("+") else val - d
                     return val, n_upd
         raise _NoEval("accumulator %s not found" % name)
@@ -758,4 +824,38 @@ def _attr_layout_rule(ctx, mpq):
             ctx.ok(R, {"evaluations": n_eval, "accumulators": [full, minus]})
     except _NoEval as e:
         ctx.bad(R, "load_attributes|not-evaluable", f.where, "expected-size computation not evaluable: %s" % e, "shape changed")
+
+
+
+def _attr_maintenance_rule(ctx, mpq):
+    """MutableArchive::update_attributes runs inside flush(), i.e. *before* the read-only view `self.archive` is re-opened: file
+    content read through that view for a block written in this session is the old content (or unreadable).  The checksums it
+    stores for modified blocks therefore may not come from a read through the view; only the stored `(attributes)` file itself
+    (a block from before the session) may be read that way.  And that stored file is parsed with the entry count it holds, not
+    with the grown block count (which always fails as "too small" and resets every unmodified file's checksum)."""
+    R = ctx.rule("C10.attributes-maintained-from-written-data", "update_attributes reads through the stale archive view only the literal \"(attributes)\" file, and does not parse the stored attributes with the current block count", floor=2)
+    f = next((x for x in mpq.fn_list if x.hir and x.kind != "Closure" and norm(x.path).endswith("modification::MutableArchive::update_attributes")), None)
+    if f is None:
+        ctx.bad(R, "update_attributes|missing", "-", "function not found", "anchor gone")
+        return
+    ctx.saw_fn(f)
+    body = f.hir["body"]
+    reads = [x for x in hirq.walk(body) if x.get("k") == "mcall" and x["m"] in ("read_current_file", "read_file", "read_file_by_indices", "read_file_with_new_handle")]
+    stale = [x for x in reads if not (x.get("args") and (hirq.lit_str(hirq.strip(x["args"][0])) or "") == "(attributes)")]
+    if stale:
+        ctx.bad(R, "update_attributes|content-read-through-stale-view", "%s:%d" % (f.file, stale[0].get("ln") or 0), "`%s` reads file content through the view opened before this session's modifications" % hirq.render(stale[0])[:70],
+                "a replaced file gets the checksum of its old content, a newly added one 0: the (attributes) of an intact, library-modified archive no longer verify")
+    else:
+        ctx.ok(R, {"reads_through_view": [hirq.render(x)[:50] for x in reads]})
+    parses = [x for x in hirq.walk(body) if x.get("k") == "call" and (x.get("fn") or "").endswith("Attributes::parse") and len(x.get("args") or []) >= 2]
+    if not parses:
+        ctx.bad(R, "update_attributes|no-parse", f.where, "the stored (attributes) file is no longer parsed", "unmodified files lose their stored checksums")
+    for x in parses:
+        leaves = [("?" if v is None else hirq.render(v)) for v in hirq.value_leaves(body, x["args"][1])]
+        grown = [l for l in leaves if re.search(r"block_table|entries\(\)\.len\(\)|\.len\(\)", l) and "stored" not in l and "attrs_data" not in l]
+        if grown and not any("stored_entry_count" in l or "attrs_data" in l for l in leaves):
+            ctx.bad(R, "update_attributes|parsed-with-current-count", "%s:%d" % (f.file, x.get("ln") or 0), "the stored attributes are parsed with `%s`, the block count after this session's additions" % grown[0][:60],
+                    "the stored file holds fewer entries: parsing fails as too small and a fresh table with empty checksums replaces it — every unmodified file ends with CRC32 0 and the MD5 column is dropped")
+        else:
+            ctx.ok(R, {"parsed_with": leaves[:3]})
 
